@@ -740,3 +740,88 @@ Proof.
       by (intros x Hx; destruct (HX x Hx) as [-> ->]; reflexivity).
     now rewrite app_nil_r.
 Qed.
+
+(* ---------------- alignBoundariesAcrossTiers ---------------- *)
+
+Fixpoint subst_named (n : text) (t' : tier) (l : list tier) : list tier :=
+  match l with
+  | [] => []
+  | t :: l' => if text_eqb (tname t) n then t' :: l' else t :: subst_named n t' l'
+  end.
+
+Lemma replace_list n l k t' :
+  index_of n l = Some k -> py_insert (remove_named n l) (Z.of_nat k) t' = subst_named n t' l.
+Proof.
+  revert k. induction l as [|t0 l IH]; intros k Ei; [discriminate|]. simpl in *.
+  destruct (text_eqb (tname t0) n) eqn:E.
+  - injection Ei as <-. apply py_insert_zero.
+  - destruct (index_of n l) as [j|] eqn:Ej; [|discriminate]. injection Ei as <-.
+    rewrite py_insert_cons.
+    + f_equal. now apply IH.
+    + pose proof (remove_named_length n l j Ej). pose proof (index_of_lt n l j Ej). lia.
+Qed.
+
+Lemma subst_named_skip n t' done l :
+  ~ In n (map tname done) -> subst_named n t' (done ++ l) = done ++ subst_named n t' l.
+Proof.
+  induction done as [|x done IH]; intro H; [reflexivity|]. cbn [app subst_named].
+  destruct (text_eqb (tname x) n) eqn:E.
+  - apply text_eqb_eq in E. exfalso. apply H. now left.
+  - f_equal. apply IH. intro Hin. apply H. now right.
+Qed.
+
+Lemma dejitter_tier_name t refs d t' : dejitter_tier t refs d = Ok t' -> tname t' = tname t.
+Proof.
+  destruct t as [t|t]; simpl.
+  - destruct (dejitter_i t refs d) as [x|] eqn:E; [|discriminate]. intros [= <-]. simpl.
+    unfold dejitter_i in E. destruct (mapM _ (ients t)); [|discriminate]. eapply new_itier_name, E.
+  - destruct (dejitter_p t refs d) as [x|] eqn:E; [|discriminate]. intros [= <-]. simpl.
+    unfold dejitter_p in E. destruct (mapM _ (pents t)); [|discriminate]. eapply new_ptier_name', E.
+Qed.
+
+Definition aligned (n : text) (refs : list Z) (d : Z) (t t' : tier) : Prop :=
+  if text_eqb (tname t) n then t' = t else dejitter_tier t refs d = Ok t'.
+
+Lemma fold_align n refs d : forall l done g g',
+  tiers g = done ++ l -> NoDup (map tname (done ++ l)) ->
+  fold_res (align_one n refs d) l g = Ok g' ->
+  exists l', tiers g' = done ++ l' /\ Forall2 (aligned n refs d) l l'.
+Proof.
+  induction l as [|t l IH]; intros done g g' T ND H; cbn [fold_res] in H.
+  - injection H as <-. exists []. split; [exact T|constructor].
+  - destruct (align_one n refs d g t) as [g1|] eqn:A; [|discriminate]. cbn [bind] in H.
+    unfold align_one in A.
+    assert (~ In (tname t) (map tname done)) as NI.
+    { rewrite map_app in ND. cbn [map] in ND. apply NoDup_remove_2 in ND. intro Hin. apply ND, in_or_app. now left. }
+    destruct (text_eqb (tname t) n) eqn:E.
+    + injection A as <-.
+      destruct (IH (done ++ [t]) g g') as (l' & T' & F).
+      * now rewrite T, <- app_assoc.
+      * now rewrite <- app_assoc.
+      * exact H.
+      * exists (t :: l'). split; [now rewrite T', <- app_assoc|]. constructor; [|exact F]. unfold aligned. now rewrite E.
+    + destruct (dejitter_tier t refs d) as [t'|] eqn:D; [|discriminate]. cbn [bind] in A.
+      pose proof (dejitter_tier_name _ _ _ _ D) as N.
+      destruct (replace_step g (tname t') t' RWarning) as [[u|e] g2] eqn:RS; [|discriminate]. injection A as <-.
+      destruct (replace_step_ok _ _ _ _ _ _ RS) as (k & Ek & T2).
+      rewrite (replace_list _ _ _ _ Ek), T, N, (subst_named_skip _ _ _ _ NI) in T2. cbn [subst_named] in T2.
+      rewrite text_eqb_refl in T2.
+      destruct (IH (done ++ [t']) g2 g') as (l' & T' & F).
+      * now rewrite T2, <- app_assoc.
+      * rewrite <- app_assoc. cbn [app]. rewrite map_app in *. cbn [map] in *. now rewrite N.
+      * exact H.
+      * exists (t' :: l'). split; [now rewrite T', <- app_assoc|]. constructor; [|exact F]. unfold aligned. now rewrite E.
+Qed.
+
+(* alignBoundariesAcrossTiers: the textgrid keeps its tiers, names and order; the reference tier is
+   untouched and every other tier is that tier's own dejitter against the reference's timestamps *)
+Theorem tg_align_tierwise g n d g' :
+  NoDup (names g) -> tg_align g n d = Ok g' ->
+  exists ref, find_tier n (tiers g) = Some ref
+  /\ Forall2 (aligned n (timestamps_of ref) d) (tiers g) (tiers g').
+Proof.
+  intros ND. unfold tg_align. destruct (find_tier n (tiers g)) as [ref|]; [|discriminate].
+  destruct (too_close d (tl (timestamps_of ref))); [discriminate|]. intro H.
+  destruct (fold_align n (timestamps_of ref) d (tiers g) [] g g' eq_refl ND H) as (l' & T & F).
+  exists ref. split; [reflexivity|]. now rewrite T.
+Qed.
